@@ -4,7 +4,8 @@
    Models: Col26.v (column letters, cell references, xlsx coordinate parsers), Ptg.v (the two token
    decoders, the expression AST, its rendering and its encoders); proofs: Col26_proofs.v,
    Ptg_proofs.v, FormulaPos_proofs.v (on top of Range_proofs.from_sparse_spec); tables:
-   CalamineGen.Tables (regenerated from src/utils.rs on every run) against FtabRef.v (frozen).
+   CalamineGen.Tables (regenerated from src/utils.rs on every run) against FtabRef.v (frozen: the
+   pinned source + the 3 arities corrected against the Ftab, audit E1-E3).
    FormulaEnv.v (round 3): where the decoders' environment comes from — the BrtName / BrtExternSheet
    records of workbook.bin, the Lbl / ExternSheet records of the xls globals — and the formula range
    of the stored-text readers; proofs: FormulaEnv_proofs.v.
@@ -79,6 +80,67 @@ Theorem C14_rpn_correct_xlsb : forall show_f64 env e,
   wf_xlsb env e = true ->
   xlsb_parse_formula show_f64 env (encode_xlsb e) = Ok (render_xlsb show_f64 env e).
 Proof. exact rpn_correct_xlsb. Qed.
+
+(* CHOOSE as Excel writes it — PtgAttrChoose with n + 1 jump offsets after the index, a PtgAttrGoto
+   after each of the n values, PtgFuncVar(n + 1, CHOOSE) — for every n, any jump words (audit G1:
+   the xlsb decoder skipped a fixed 10 bytes, right for n = 3 only; repaired) *)
+Theorem C14_choose_correct_xlsb : forall show_f64 env k idx offs vals,
+  wf_xlsb env (e_choose k idx offs vals) = true ->
+  xlsb_parse_formula show_f64 env (encode_xlsb (e_choose k idx offs vals))
+  = Ok (lit "CHOOSE(" ++ join_comma (render_xlsb show_f64 env idx ::
+                                      map (fun vg => render_xlsb show_f64 env (fst vg)) vals) ++ [ch_rpar]).
+Proof. exact choose_correct_xlsb. Qed.
+
+Theorem C14_choose_correct_xls : forall show_f64 env k idx offs vals,
+  wf_xls env (e_choose k idx offs vals) = true ->
+  N.of_nat (length (encode_xls (e_choose k idx offs vals))) < 65536 ->
+  xls_parse_formula show_f64 env (frame_xls (encode_xls (e_choose k idx offs vals)))
+  = Ok (lit "CHOOSE(" ++ join_comma (render_xls show_f64 env idx ::
+                                      map (fun vg => render_xls show_f64 env (fst vg)) vals) ++ [ch_rpar]).
+Proof. exact choose_correct_xls. Qed.
+
+(* user-defined / future functions: PtgFuncVar with tab 0x00FF, the first parameter (a name token) is
+   the function's name — name(arguments), not User(name,arguments) (audit E4, repaired) *)
+Theorem C14_user_function_correct_xlsb : forall show_f64 env k kn idx args,
+  wf_xlsb env (EFuncVar k 255 (EName kn idx :: args)) = true ->
+  xlsb_parse_formula show_f64 env (encode_xlsb (EFuncVar k 255 (EName kn idx :: args)))
+  = Ok (spec_name (be_names env) idx ++ [ch_lpar] ++ join_comma (map (render_xlsb show_f64 env) args) ++ [ch_rpar]).
+Proof. exact user_function_correct_xlsb. Qed.
+
+Theorem C14_user_function_correct_xls : forall show_f64 env k kn idx args,
+  wf_xls env (EFuncVar k 255 (EName kn idx :: args)) = true ->
+  N.of_nat (length (encode_xls (EFuncVar k 255 (EName kn idx :: args)))) < 65536 ->
+  xls_parse_formula show_f64 env (frame_xls (encode_xls (EFuncVar k 255 (EName kn idx :: args))))
+  = Ok (spec_name (xe_names env) idx ++ [ch_lpar] ++ join_comma (map (render_xls show_f64 env) args) ++ [ch_rpar]).
+Proof. exact user_function_correct_xls. Qed.
+
+(* the repaired defects' witnesses, computed: issue_182.xlsb!A2 (_xlfn.CONCAT("A","b")), CHOOSE with
+   1 / 2 / 3 / 4 / 10 values in both formats (in domain, decoded to the spec text), MMULT / LENB /
+   CONVERT with 2 / 1 / 3 parameters, formulas with PtgAttrSpace in front of the first operand *)
+Example C14_repaired_witnesses_nonvacuous :
+  let xenv := {| xe_sheets := []; xe_names := [lit "_xlfn.CONCAT"]; xe_xtis := [] |} in
+  let benv := {| be_sheets := []; be_names := [lit "_xlfn.CONCAT"] |} in
+  let sf := fun _ : N => @nil N in
+  xlsb_parse_formula sf benv [0x23; 1; 0; 0; 0; 0x17; 1; 0; 65; 0; 0x19; 0x40; 0; 1; 0x17; 1; 0; 98; 0; 0x42; 3; 255; 0]
+    = Ok (lit "_xlfn.CONCAT(""A"",""b"")") /\
+  encode_xlsb (EFuncVar CVal 255 [EName CRef 1; EStr false [65]; EAttrSkip 0x40 256 (EStr false [98])])
+    = [0x23; 1; 0; 0; 0; 0x17; 1; 0; 65; 0; 0x19; 0x40; 0; 1; 0x17; 1; 0; 98; 0; 0x42; 3; 255; 0] /\
+  forallb (fun n => match xlsb_parse_formula sf benv (encode_xlsb (ex_choose n)) with
+                    | Ok s => leqb s (ex_choose_text n) | _ => false end
+                    && wf_xlsb benv (ex_choose n)
+                    && match xls_parse_formula sf xenv (frame_xls (encode_xls (ex_choose n))) with
+                       | Ok s => leqb s (ex_choose_text n) | _ => false end
+                    && wf_xls xenv (ex_choose n)) [1; 2; 3; 4; 10]%nat = true /\
+  encode_xlsb (ex_choose 2)
+    = [0x1E; 2; 0; 0x19; 0x04; 2; 0; 0; 0; 4; 0; 8; 0; 0x1E; 10; 0; 0x19; 0x08; 8; 0;
+       0x1E; 11; 0; 0x19; 0x08; 4; 0; 0x42; 3; 100; 0] /\
+  xls_parse_formula sf xenv (frame_xls (encode_xls (EFunc CVal 165 [EInt 1; EInt 2]))) = Ok (lit "MMULT(1,2)") /\
+  xlsb_parse_formula sf benv (encode_xlsb (EFunc CVal 211 [EStr false [97]])) = Ok (lit "LENB(""a"")") /\
+  xlsb_parse_formula sf benv (encode_xlsb (EFunc CVal 468 [EInt 1; EStr false [109]; EStr false [102]]))
+    = Ok (lit "CONVERT(1,""m"",""f"")") /\
+  xls_parse_formula sf xenv (frame_xls (encode_xls (EAttrSkip 0x40 0x0100 (EBin 3 (EInt 1) (EAttrSkip 0x40 0x0200 (EInt 2))))))
+    = Ok (lit "1+2").
+Proof. exact repaired_witnesses. Qed.
 
 (* no known class is left: K_STR_WIDE (F21) was fixed by a3d91ee, K_STR_QUOTE by 6ef7f34; the former
    witnesses now satisfy the spec (16-bit strings incl. surrogate pairs and doubled quotes are part
@@ -163,7 +225,7 @@ Theorem C14_defined_name_text_is_render_xls : forall show_f64 sheets gs names xt
   xls_read_names show_f64 sheets (map enc_grec gs) = Ok (names, xtis) ->
   nth_error (lbls_of gs) i = Some d -> lb_rgce d = encode_xls e ->
   N.of_nat (length (encode_xls e)) < 65536 ->
-  let env := {| xe_sheets := sheets; xe_names := map lb_name (lbls_of gs); xe_xtis := xtis_of gs |} in
+  let env := {| xe_sheets := map sheet_text sheets; xe_names := map lb_name (lbls_of gs); xe_xtis := xtis_of gs |} in
   wf_xls env e = true ->
   nth_error names i = Some (lb_name d, render_xls show_f64 env e).
 Proof. exact defined_name_text_is_render_xls. Qed.
@@ -203,12 +265,24 @@ Theorem C14_sheet3d_through_xti_xlsb : forall sheets xtis i x nm,
   = resolve_xti sheets (snd (fst x)).
 Proof. exact sheet3d_through_xti_xlsb. Qed.
 
+(* xls: the table handed to the decoder (fmla_sheet_names) holds each sheet name as formula text writes
+   it in front of '!' — [sheet_text], the grammar's rule: bare for a word, else between apostrophes
+   with apostrophes doubled (audit G7, repaired) *)
 Theorem C14_sheet3d_through_xti_xls : forall show_f64 sheets gs names xtis i x nm, forallb wf_grec gs = true ->
   xls_read_names show_f64 sheets (map enc_grec gs) = Ok (names, xtis) ->
   nth_error (xtis_of gs) i = Some x -> snd (fst x) < 32768 ->
-  spec_sheet_xls {| xe_sheets := sheets; xe_names := nm; xe_xtis := xtis |} (N.of_nat i)
-  = match nthN sheets (snd (fst x)) with Some s => s | None => lit "#REF" end.
+  spec_sheet_xls {| xe_sheets := map quote_sheet_name sheets; xe_names := nm; xe_xtis := xtis |} (N.of_nat i)
+  = match nthN sheets (snd (fst x)) with Some s => sheet_text s | None => lit "#REF" end.
 Proof. exact sheet3d_through_xti_xls. Qed.
+
+(* the quoting the code applies is the grammar's, for every name *)
+Theorem C14_sheet_name_quoting : forall s, quote_sheet_name s = sheet_text s.
+Proof. exact quote_sheet_name_spec. Qed.
+
+(* xlsb: an XTI pointing at a sheet of this workbook resolves to that sheet's formula text *)
+Theorem C14_resolve_xti_sheet_text : forall sheets first s, first < 2147483648 ->
+  nthN sheets first = Some s -> resolve_xti sheets first = sheet_text s.
+Proof. exact resolve_xti_sheet_text. Qed.
 
 (* shared / array formula members (PtgExp): both decoders answer "" whatever the shared formula is *)
 Theorem C14_refuted_ptgexp : forall show_f64 xenv benv r c, r < 65536 -> c < 65536 ->
@@ -228,17 +302,17 @@ Proof. exact stored_text_positions. Qed.
 
 Example C14_xlsb_names_nonvacuous :
   forallb wf_name_rec ex_names = true /\ forallb wf_xti [(0, 1, 1); (0, 4294967294, 4294967294)] = true /\
-  xlsb_read_names (fun _ => []) [lit "S1"; lit "S2"]
+  xlsb_read_names (fun _ => []) [lit "S1"; lit "O'Neil 2"]
     ((0x0165, []) :: (0x016A, enc_externsheet [(0, 1, 1); (0, 4294967294, 4294967294)])
        :: map (fun d => (0x0027, enc_brtname d)) ex_names ++ [(0x009D, [])])
-  = Ok ([lit "S2"; lit "#ThisWorkbook"],
-        [(lit "_xlnm._FilterDatabase", lit "S2!$A$1:$C$10"); (lit "Rate", lit "5"); ([26085; 128512], lit "Rate*2")]).
+  = Ok ([lit "'O''Neil 2'"; lit "#ThisWorkbook"],
+        [(lit "_xlnm._FilterDatabase", lit "'O''Neil 2'!$A$1:$C$10"); (lit "Rate", lit "5"); ([26085; 128512], lit "Rate*2")]).
 Proof. exact xlsb_names_nonvacuous. Qed.
 
 Example C14_xls_names_nonvacuous :
   forallb wf_grec ex_globals = true /\
-  xls_read_names (fun _ => []) [lit "S1"; lit "S2"] (map enc_grec ex_globals)
-  = Ok ([([13], lit "S2!$A$1:$C$10"); ([26085; 128512], lit "S1!$AB$5")], [(0, 1, 1); (0, 0, 0)]).
+  xls_read_names (fun _ => []) [lit "S1"; lit "My Sheet"] (map enc_grec ex_globals)
+  = Ok ([([13], lit "'My Sheet'!$A$1:$C$10"); ([26085; 128512], lit "S1!$AB$5")], [(0, 1, 1); (0, 0, 0)]).
 Proof. exact xls_names_nonvacuous. Qed.
 
 Example C14_stored_text_positions_nonvacuous :
@@ -328,6 +402,12 @@ Print Assumptions C14_lower_case_agrees.
 Print Assumptions C14_tables_match_reference.
 Print Assumptions C14_rpn_correct_xls.
 Print Assumptions C14_rpn_correct_xlsb.
+Print Assumptions C14_choose_correct_xlsb.
+Print Assumptions C14_choose_correct_xls.
+Print Assumptions C14_user_function_correct_xlsb.
+Print Assumptions C14_user_function_correct_xls.
+Print Assumptions C14_sheet_name_quoting.
+Print Assumptions C14_resolve_xti_sheet_text.
 Print Assumptions C14_formula_positions.
 Print Assumptions C14_xlsb_names_of_records.
 Print Assumptions C14_xlsb_read_names_spec.
